@@ -82,7 +82,9 @@ func (f *FindSymbol) Call(s *slip.Scope, args slip.List, depth int) (result slip
 	vv := p.GetVarVal(string(so))
 	switch {
 	case vv == nil:
-		fi := slip.FindFunc(string(so))
+		// The function table of the package asked about, private entries
+		// included, not what is visible from the current package.
+		fi := p.GetFunc(strings.ToLower(string(so)))
 		switch {
 		case fi == nil:
 			return slip.Values{nil, nil}
